@@ -259,7 +259,7 @@ func ops6(cmp int) string {
 func (c *strCase) lineA() string {
 	idx := jb(c.s) // Index(s, i) = s[i+1] for the offsets in range
 	return "a " + secs(strconv.Itoa(len(c.s)), idx, idx, idx, jb(c.bytes), jb(c.bytes), jb(c.app),
-		strconv.Itoa(c.cp2n)+","+jb(c.cp2), strconv.Itoa(c.cp5n)+","+jb(c.cp5))
+		strconv.Itoa(c.cp2n)+","+jb(c.cp2), strconv.Itoa(c.cp5n)+","+jb(c.cp5), jb(c.bytes), jb(c.bytes))
 }
 
 func (c *strCase) lineB() string {
@@ -276,7 +276,7 @@ func (c *strCase) lineB() string {
 		}
 		u += "," + strconv.Itoa(c.rng[0][1]) + "," + strconv.Itoa(w)
 	}
-	return "r " + secs(ji(flat), ji(keys), strconv.Itoa(len(c.rng)), ji(c.runes), jb(c.rt), u)
+	return "r " + secs(ji(flat), ji(keys), strconv.Itoa(len(c.rng)), ji(c.runes), jb(c.rt), u, ji(c.runes), jb(c.rt))
 }
 
 func (c *strCase) lineC() string {
